@@ -7,6 +7,14 @@
 //   (further sections are appended below: i_* interference, t_* termination, futures, teardown)
 
 use super::*;
+// explicit imports: the contracts must not depend on which names the parent module happens to import
+use std::cell::Cell;
+use std::marker::PhantomData;
+use std::mem;
+use std::ptr;
+use std::sync::atomic::Ordering::*;
+use std::sync::mpsc::{RecvError, SendError, TryRecvError, TrySendError};
+use std::sync::Arc;
 use crate::verif_hooks::pay::{self, Pay};
 use crate::verif_hooks::*;
 
